@@ -167,12 +167,16 @@ func runC13(cfg runCfg) {
 			sb.WriteString("package p\n\n")
 			k := 0
 			for _, key := range c13Keys {
-				for vi := 0; vi < 10; vi++ {
+				for vi := 0; vi < 14; vi++ {
 					val := c13Vals[r.Intn(len(c13Vals))]
+					pos := r.Intn(3)
+					if vi < 6 { // the boundary values of every key at every position, always (not drawn)
+						val = []string{"", "", "A B C", "A B C", "yes no", "("}[vi]
+						pos = vi % 2
+					}
 					line := strings.TrimRight(key+" "+val, " ")
 					name := fmt.Sprintf("Z%d", k)
 					k++
-					pos := r.Intn(3)
 					sig := []string{"Conv(source In) Out", "Conv(source *In) *Out", "Conv(source []In) []Out", "Conv(source In, target *Out)", "Conv(source Color) Colour", "Conv(ctx string, source In) (Out, error)"}[r.Intn(6)]
 					sb.WriteString("// goverter:converter\n")
 					if pos == 0 {
@@ -277,5 +281,40 @@ func runC13(cfg runCfg) {
 		}
 		os.RemoveAll(root)
 	}
+	// ---- D: inputs that can end the process (stack overflow is fatal, not recoverable): the real CLI in a subprocess ----
+	bin := buildCLI(cfg)
+	for i, in := range c13ProcInputs {
+		root, _ := filepath.Abs(filepath.Join(cfg.out, fmt.Sprintf("pd%d", i)))
+		must(os.MkdirAll(filepath.Join(root, "p"), 0o755))
+		must(os.WriteFile(filepath.Join(root, "go.mod"), []byte("module example.org/m\n\ngo 1.22\n"), 0o644))
+		must(os.WriteFile(filepath.Join(root, "p", "in.go"), []byte("package p\n\n"+in.src), 0o644))
+		done := make(chan procResult, 1)
+		go func() { done <- runCLI(bin, root, "gen", "./p") }()
+		select {
+		case res := <-done:
+			rep.eval("D:"+in.name, true)
+			bad := res.exit != 0 && res.exit != 1 || strings.Contains(res.stderr, "panic:") || strings.Contains(res.stderr, "fatal error:") || strings.Contains(res.stderr, "goroutine ")
+			rep.count(fmt.Sprintf("D-exit=%d", res.exit))
+			if bad {
+				rep.violate(Violation{CaseID: "D" + fmt.Sprint(i), What: fmt.Sprintf("the goverter process died (exit status %d): %s; input class: %s", res.exit, firstLine(res.stderr), in.name), Sig: "cli-panic",
+					Replay: map[string]interface{}{"input": in.src, "class": in.name, "stderr": firstLines(res.stderr, 6)}})
+			}
+		case <-time.After(40 * time.Second):
+			rep.violate(Violation{CaseID: "D" + fmt.Sprint(i), What: "goverter did not terminate within 40 s; input class: " + in.name, Sig: "hang", Replay: map[string]interface{}{"input": in.src}})
+		}
+		os.RemoveAll(root)
+	}
+	os.Remove(bin)
 	rep.write(cfg.out)
+}
+
+var c13ProcInputs = []struct{ name, src string }{
+	{"self-containing container (slice)", "// goverter:converter\ntype C interface {\n\tConv(source S) T\n}\n\ntype Tree []Tree\ntype S struct{ A Tree }\ntype T struct{ A Tree }\n"},
+	{"self-containing container (map)", "// goverter:converter\ntype C interface {\n\tConv(source S) T\n}\n\ntype M map[string]M\ntype S struct{ A M }\ntype T struct{ A M }\n"},
+	{"generic converter interface", "// goverter:converter\ntype C[T any] interface {\n\tConv(source T) T\n}\n"},
+	{"recursive struct via slice and pointer", "// goverter:converter\ntype C interface {\n\tConv(source S) T\n}\n\ntype S struct{ Kids []S; Up *S; ByName map[string]*S }\ntype T struct{ Kids []T; Up *T; ByName map[string]*T }\n"},
+	{"update method with a map function without source", "// goverter:converter\ntype C interface {\n\t// goverter:update target\n\t// goverter:map Name | Mk\n\tU(source S, target *T)\n}\n\nfunc Mk() string { return \"x\" }\n\ntype S struct{ Age int }\ntype T struct {\n\tAge  int\n\tName string\n}\n"},
+	{"fallible function returning a channel", "// goverter:converter\n// goverter:extend Mk\ntype C interface {\n\tConv(source S) (T, error)\n}\n\nfunc Mk(source int) (chan int, error) { return nil, nil }\n\ntype S struct{ A int }\ntype T struct{ A chan int }\n"},
+	{"generic struct fields", "// goverter:converter\ntype C interface {\n\tConv(source S) T\n}\n\ntype G[X any] struct{ V X }\ntype S struct{ A G[int]; B G[string] }\ntype T struct{ A G[int]; B G[string] }\n"},
+	{"empty output:format", "// goverter:converter\n// goverter:output:format\ntype C interface {\n\tConv(source S) T\n}\n\ntype S struct{ A int }\ntype T struct{ A int }\n"},
 }
